@@ -163,10 +163,13 @@ def run_case(env, c, sh):
         fifo = os.path.join(app_abs, "a-pipe")
         os.mkfifo(fifo)
         try:
-            rc, err, log, left = env.run(scenario)
+            rc, err, log, left = env.run(scenario, timeout=25)      # (a copy that opens the FIFO blocks for ever: not waited for)
         finally:
             os.unlink(fifo)
         sh.evaluations += 1
+        if rc is None:
+            sh.inconclusive.append("%s: the build of a fixture that holds a FIFO did not return within 25 s" % what)
+            return
         sh.count("fixtures_with_an_uncopyable_entry")
         want = apply_pre(before, c["build"]["preprocessor"])
         for e in log:
